@@ -11,7 +11,7 @@ import (
 	"strings"
 )
 
-func init() { extraSections = append(extraSections, factsBroker) }
+func init() { extraSections = append(extraSections, section{"broker", factsBroker}) }
 
 func factsBroker(repo string, o *out) {
 	fm := parse(repo, "message/message.go")
